@@ -106,6 +106,7 @@ inductive Op (κ : Type) where
   | advance
   | execute
   | reset
+  deriving DecidableEq
 
 /-- result of one operation: return value (`0` for advance/reset) and the items to run -/
 structure Out (κ : Type) where
